@@ -1,10 +1,11 @@
 (* Properties/C01.v — Polars and SQL backends return the same table for the same pipeline.
    Both backends are compared with ONE reference (Model/RefSem.v) on the real resolved AST; the
-   comparison is evaluated inside Coq.  The theorems here say what a VOk verdict means; the
-   compile-correctness theorems for the SQL / Polars compiler models are in C08 / later files. *)
+   comparison is evaluated inside Coq.  The first theorems say what a VOk verdict means; the last one
+   is the compile-correctness theorem of the SQL compiler model for the single-SELECT fragment. *)
 From Coq Require Import List String NArith ZArith Bool Permutation.
 From PDT Require Import Base.StableSort Model.Dtype Model.Value Model.Ops Model.Expr Model.RefSem
-     Proofs.CompareLemmas.
+     Model.SqlCompile Model.SqlCompileCheck Proofs.CompareLemmas Proofs.SqlCompileLemmas.
+From PDTGen Require Import Catalogue.
 Import ListNotations.
 Open Scope list_scope.
 
@@ -37,3 +38,32 @@ Proof.
   destruct H1 as [_ [N1 _]], H2 as [_ [N2 _]]. congruence.
 Qed.
 Print Assumptions backends_agree_on_names.
+
+(* SQL COMPILE CORRECTNESS (single-SELECT fragment).  Model/SqlCompile.compile transcribes
+   SqlImpl.compile_ast (Query record + inlined definitions); sem_query is the meaning of the SELECT it
+   denotes (WHERE, GROUP BY with aggregates over the group, HAVING, ORDER BY, LIMIT / OFFSET, select
+   list).  For EVERY database and every AST accepted by flat_ok - source, select, rename, element-wise
+   mutate (also after summarize), element-wise filter (WHERE before, HAVING after a summarize), group_by
+   / ungroup, one summarize of aggregates over element-wise arguments, one arrange, slice_head chains,
+   alias(keep) - the statement returns exactly the reference table: same names, same column order, same
+   rows in the same order.  The tie (L3, harness/sqlcompile.py) compares compile with the real
+   compile_ast on every generated single-source pipeline and counts the cases that satisfy flat_ok. *)
+Theorem sql_compile_correct : forall d a c,
+  compile a = Some c -> flat_ok a = true -> sem_query d c = export_ref (sem_ref d a).
+Proof. exact sql_compile_correct_proof. Qed.
+Print Assumptions sql_compile_correct.
+
+(* the hypothesis is satisfiable by a pipeline using every verb of the fragment *)
+Example flat_pipeline :
+  let a := SliceHead (Arrange (Filter (Mutate (Summarize (GroupBy (Filter (Mutate
+             (Source "t" [("g", 1%N); ("x", 2%N)])
+             [("y", 3%N, EFn Op_add [ECol 2%N; ELit (VInt 1)] false [] [])])
+             [EFn Op_greater_than [ECol 3%N; ELit (VInt 0)] false [] []]) [1%N] false)
+             [("s", 4%N, EFn Op_sum [ECol 3%N] false [] [])])
+             [("z", 5%N, EFn Op_mul [ECol 4%N; ELit (VInt 2)] false [] [])])
+             [EFn Op_greater_than [ECol 5%N; ELit (VInt 2)] false [] []])
+             [(ECol 5%N, (true, Some true))]) 2 0 in
+  flat_ok a = true
+  /\ f_rows (export_ref (sem_ref [("t", [[VInt 1; VInt 1]; [VInt 1; VInt 2]; [VInt 2; VInt 5]; [VInt 3; VInt (-7)]])] a))
+     = [[VInt 2; VInt 6; VInt 12]; [VInt 1; VInt 5; VInt 10]].
+Proof. vm_compute. split; reflexivity. Qed.
